@@ -3,9 +3,12 @@
    the CRC of the data xor the CRC of the error pattern, and every error pattern
    confined to 16 consecutive bits (bits numbered least significant first within
    each byte, the order CRC-16/ARC consumes them) changes the CRC -- hence is
-   reported.  Length errors and the verdict of the tool itself are decided by the
-   check on the real tool (model = reference oracle on corrupted archives). *)
-From Lhasa Require Import Base Crc16 P_Crc16 P_CrcBurst.
+   reported.  The verdict of lha_reader_check / lha_reader_extract
+   (model Reader.v) is proved to be exactly "length and CRC of the bytes obtained
+   = header values" (second part of this file); the verdict of the tool itself is
+   decided by the check on the real tool. *)
+From Lhasa Require Import Base ListN DecBase Loop Generated Crc16 P_Crc16 P_CrcBurst InputStream Header BasicReader
+  AnyDecoder Decoder MacBinary Fs FsRun Reader P_ReaderCheck.
 Local Open Scope N_scope.
 
 (* the CRC compared with the header value is CRC-16/ARC of exactly the bytes produced (C17) *)
@@ -33,7 +36,182 @@ Theorem stored_member_burst16_detected : forall (D E : list N) (recorded : N),
   lha_crc16_buf 0 (map2 N.lxor D E) <> recorded.
 Proof. exact P_CrcBurst.stored_member_burst16_detected. Qed.
 
+
+(* ====== the verdict of the reader ====== *)
+(* C07: a member is reported good only if its bytes match the
+   recorded length and CRC-16 -- the verdict of lha_reader_check and of lha_reader_extract
+   for a regular file (model: Reader.v do_decode).  Statements only; the proofs and the
+   vocabulary are in P_ReaderCheck.v:
+
+     dd_run junk out r f chunks r' f'   the successive lha_reader_read(reader, buf, 64) of do_decode,
+                                        started with reader r and filesystem f, return the non-empty
+                                        [chunks] (each written to the open file [out], if any), then
+                                        nothing; r', f' are the reader and filesystem at that point
+     write_chunks hd chunks f           f after fs_write of each chunk, in order, to the handle hd
+     ireads junk d bs d'                the inner decoder d' is d after calls of lha_decoder_read that
+                                        returned the bytes bs
+     fresh_inner r mon d0          d0 is the decoder lha_basic_reader_decode creates for r's member
+     inner_of r                         the decoder reader->inner_decoder points to
+
+   Every statement has "... = Ok (...)" as hypothesis: a run of do_decode can also end in
+   Fault 1403 or OutOfFuel; nothing is claimed about those.  The CRC the C compares is the
+   table-driven lha_crc16_buf; it is CRC-16/ARC (crc_bitwise) when the decoder's output
+   consists of bytes (cf. C14, C17). *)
+
+
+Section C07_reader.
+  Variable junk : N.
+
+  (* 1. plain member reported good => the bytes do_decode obtained have the header's length and CRC *)
+  Theorem check_good_implies_match : forall r mon ev r' h,
+    lha_reader_check junk r mon = Ok (true, ev, r') ->
+    rd_type r = CT_NORMAL -> rd_curr r = Some h -> is_dir_method h = false ->
+    (h_os_type h =? OS_TYPE_MACOS) = false ->
+    exists ev1 r1 chunks,
+      open_decoder junk r mon = Ok (true, ev1, r1) /\
+      dd_run junk None r1 check_fs chunks r' check_fs /\
+      let bs := concat chunks in
+      nlen bs = h_length h /\ lha_crc16_buf 0 bs = h_crc h /\
+      (Forall (fun b => b < 256) bs -> crc_bitwise 0 bs = h_crc h).
+  Proof. exact (P_ReaderCheck.check_good_implies_match junk). Qed.
+
+  (* 2. the bytes do_decode obtains differ in length or CRC => reported bad *)
+  Theorem check_mismatch_implies_bad : forall r mon res ev r' h ev1 r1 chunks r2 f2,
+    lha_reader_check junk r mon = Ok (res, ev, r') ->
+    rd_type r = CT_NORMAL -> rd_curr r = Some h -> is_dir_method h = false ->
+    (h_os_type h =? OS_TYPE_MACOS) = false ->
+    open_decoder junk r mon = Ok (true, ev1, r1) ->
+    dd_run junk None r1 check_fs chunks r2 f2 ->
+    nlen (concat chunks) <> h_length h \/ lha_crc16_buf 0 (concat chunks) <> h_crc h ->
+    res = false.
+  Proof. exact (P_ReaderCheck.check_mismatch_implies_bad junk). Qed.
+
+  Theorem check_mismatch_implies_bad_arc : forall r mon res ev r' h ev1 r1 chunks r2 f2,
+    lha_reader_check junk r mon = Ok (res, ev, r') ->
+    rd_type r = CT_NORMAL -> rd_curr r = Some h -> is_dir_method h = false ->
+    (h_os_type h =? OS_TYPE_MACOS) = false ->
+    open_decoder junk r mon = Ok (true, ev1, r1) ->
+    dd_run junk None r1 check_fs chunks r2 f2 ->
+    Forall (fun b => b < 256) (concat chunks) ->
+    nlen (concat chunks) <> h_length h \/ crc_bitwise 0 (concat chunks) <> h_crc h ->
+    res = false.
+  Proof. exact (P_ReaderCheck.check_mismatch_implies_bad_arc junk). Qed.
+
+  (* no decoder for the member (unknown method, failed MacBinary set-up) => reported bad *)
+  Theorem check_no_decoder_is_bad : forall r mon res ev r' h ev1 r1,
+    lha_reader_check junk r mon = Ok (res, ev, r') ->
+    rd_type r = CT_NORMAL -> rd_curr r = Some h -> is_dir_method h = false ->
+    open_decoder junk r mon = Ok (false, ev1, r1) -> res = false /\ r' = r1.
+  Proof. exact (P_ReaderCheck.check_no_decoder_is_bad junk). Qed.
+
+  (* the run of do_decode is unique: "the" chunks *)
+  Theorem dd_run_unique : forall out r f c1 r1 f1 c2 r2 f2,
+    dd_run junk out r f c1 r1 f1 -> dd_run junk out r f c2 r2 f2 -> c1 = c2 /\ r1 = r2 /\ f1 = f2.
+  Proof. intros. eapply dd_run_det; eauto. Qed.
+
+  (* 3. extraction of a regular file reported good => the open file was written with exactly the
+     verified bytes, in this order, and then the timestamp was set *)
+  Theorem extract_good_implies_match : forall r f name mon ev r' f' h,
+    extract_file junk r f name mon = Ok (true, ev, r', f') -> rd_curr r = Some h ->
+    (h_os_type h =? OS_TYPE_MACOS) = false ->
+    exists ev1 r1 hd f1 chunks,
+      open_decoder junk r mon = Ok (true, ev1, r1) /\
+      arch_fopen f (ex_fname h name) (ex_perms h) = (Some hd, f1) /\
+      dd_run junk (Some hd) r1 f1 chunks r' (write_chunks hd chunks f1) /\
+      Forall (fun o => o <> []) chunks /\
+      let bs := concat chunks in
+      nlen bs = h_length h /\ lha_crc16_buf 0 bs = h_crc h /\
+      (Forall (fun b => b < 256) bs -> crc_bitwise 0 bs = h_crc h) /\
+      f' = snd (set_timestamps_from_header (write_chunks hd chunks f1) (ex_fname h name) h).
+  Proof. exact (P_ReaderCheck.extract_good_implies_match junk). Qed.
+
+  Theorem extract_good_file_content : forall r f name mon ev r' f' h,
+    extract_file junk r f name mon = Ok (true, ev, r', f') -> rd_curr r = Some h ->
+    (h_os_type h =? OS_TYPE_MACOS) = false ->
+    exists hd f1 bs f2,
+      arch_fopen f (ex_fname h name) (ex_perms h) = (Some hd, f1) /\
+      f' = snd (set_timestamps_from_header f2 (ex_fname h name) h) /\
+      nlen bs = h_length h /\ lha_crc16_buf 0 bs = h_crc h /\
+      (file_data f1 hd = Some [] -> file_data f2 hd = Some bs).
+  Proof. exact (P_ReaderCheck.extract_good_file_content junk). Qed.
+
+  Theorem extract_mismatch_implies_bad : forall r f name mon res ev r' f' h ev1 r1 hd f1 chunks r2 f2,
+    extract_file junk r f name mon = Ok (res, ev, r', f') -> rd_curr r = Some h ->
+    (h_os_type h =? OS_TYPE_MACOS) = false ->
+    open_decoder junk r mon = Ok (true, ev1, r1) ->
+    arch_fopen f (ex_fname h name) (ex_perms h) = (Some hd, f1) ->
+    dd_run junk (Some hd) r1 f1 chunks r2 f2 ->
+    nlen (concat chunks) <> h_length h \/ lha_crc16_buf 0 (concat chunks) <> h_crc h ->
+    res = false /\ f' = write_chunks hd chunks f1.
+  Proof. exact (P_ReaderCheck.extract_mismatch_implies_bad junk). Qed.
+
+  (* reported bad => set_timestamps_from_header was not applied: the filesystem is the given one,
+     or what lha_arch_fopen left, or that plus the writes *)
+  Theorem extract_bad_no_timestamp : forall r f name mon ev r' f' h,
+    extract_file junk r f name mon = Ok (false, ev, r', f') -> rd_curr r = Some h ->
+    f' = f \/
+    (fst (arch_fopen f (ex_fname h name) (ex_perms h)) = None /\ f' = snd (arch_fopen f (ex_fname h name) (ex_perms h))) \/
+    (exists hd chunks, fst (arch_fopen f (ex_fname h name) (ex_perms h)) = Some hd /\
+       f' = write_chunks hd chunks (snd (arch_fopen f (ex_fname h name) (ex_perms h)))).
+  Proof. exact (P_ReaderCheck.extract_bad_no_timestamp junk). Qed.
+
+  Theorem reader_extract_regular : forall r f name mon h,
+    rd_type r = CT_NORMAL -> rd_curr r = Some h -> is_dir_method h = false ->
+    lha_reader_extract junk r f name mon = extract_file junk r f name mon.
+  Proof. exact (P_ReaderCheck.reader_extract_regular junk). Qed.
+
+  (* 4. any member, MacOS (MacBinary pass-through) included: the verdict is about the stream of
+     reader->inner_decoder -- for a MacOS member the MacBinary header and everything after the
+     data fork included -- not about the chunks the caller gets *)
+  Theorem check_good_implies_inner_match : forall r mon ev r' h,
+    lha_reader_check junk r mon = Ok (true, ev, r') ->
+    rd_type r = CT_NORMAL -> rd_curr r = Some h -> is_dir_method h = false ->
+    exists ev1 r1 d0 ibs dfin chunks,
+      open_decoder junk r mon = Ok (true, ev1, r1) /\
+      dd_run junk None r1 check_fs chunks r' check_fs /\
+      fresh_inner r mon d0 /\ ireads junk d0 ibs dfin /\ inner_of r' = Some dfin /\
+      nlen ibs = h_length h /\ lha_crc16_buf 0 ibs = h_crc h /\
+      (Forall (fun b => b < 256) ibs -> crc_bitwise 0 ibs = h_crc h).
+  Proof. exact (P_ReaderCheck.check_good_implies_inner_match junk). Qed.
+
+  Theorem check_inner_mismatch_implies_bad : forall r mon res ev r' h,
+    lha_reader_check junk r mon = Ok (res, ev, r') ->
+    rd_type r = CT_NORMAL -> rd_curr r = Some h -> is_dir_method h = false ->
+    forall d0 ibs, fresh_inner r mon d0 ->
+      ireads junk d0 ibs (match inner_of r' with Some d => d | None => d0 end) ->
+      nlen ibs <> h_length h \/ lha_crc16_buf 0 ibs <> h_crc h -> res = false.
+  Proof. exact (P_ReaderCheck.check_inner_mismatch_implies_bad junk). Qed.
+
+  (* the exception the C makes: directory / symbolic link entries are good without decoding *)
+  Theorem check_dir_entry_always_good : forall r mon h,
+    rd_type r = CT_NORMAL -> rd_curr r = Some h -> is_dir_method h = true ->
+    lha_reader_check junk r mon = Ok (true, [], r).
+  Proof. exact (P_ReaderCheck.check_dir_entry_always_good junk). Qed.
+End C07_reader.
+
+(* 5. non-vacuity (concrete archives, see P_ReaderCheck.Example) *)
+Example check_good_member : Example.ex_check Example.ex_good = Ok (Some (90, 52166, 0), true).
+Proof. exact Example.check_good_member. Qed.
+Example check_bad_crc_member : Example.ex_check Example.ex_bad = Ok (Some (90, 52167, 0), false).
+Proof. exact Example.check_bad_crc_member. Qed.
+
+
 Print Assumptions verdict_crc_is_arc.
 Print Assumptions crc16_error_superposition.
 Print Assumptions burst16_detected.
 Print Assumptions stored_member_burst16_detected.
+Print Assumptions check_good_implies_match.
+Print Assumptions check_mismatch_implies_bad.
+Print Assumptions check_mismatch_implies_bad_arc.
+Print Assumptions check_no_decoder_is_bad.
+Print Assumptions dd_run_unique.
+Print Assumptions extract_good_implies_match.
+Print Assumptions extract_good_file_content.
+Print Assumptions extract_mismatch_implies_bad.
+Print Assumptions extract_bad_no_timestamp.
+Print Assumptions reader_extract_regular.
+Print Assumptions check_good_implies_inner_match.
+Print Assumptions check_inner_mismatch_implies_bad.
+Print Assumptions check_dir_entry_always_good.
+Print Assumptions check_good_member.
+Print Assumptions check_bad_crc_member.
